@@ -73,16 +73,19 @@ def r2(ctx, prog):
                            "clears initial_mask iff the initial field had been claimed; retries are bounded by a constant")
     f = prog.fn("mi_bitmap_try_find_claim_field_across")
     cfg = f.cfg
-    labels = [n["i"] for n in f.nodes if n["k"] == "LabelStmt" and n.get("label") == "rollback"]
-    gotos = [n["i"] for n in f.nodes if n["k"] == "GotoStmt" and n.get("label") == "rollback"]
-    ctx.check(R, len(labels) == 1 and len(gotos) >= 3, f.where(), "a rollback region reached from %d failure sites" % len(gotos), key="C14.R2:shape")
     cas = [e for e in f.all(kind="AtomicExpr") if f.nodes[e]["aop"].startswith("cas")]
+    # the roll-back region starts where the field cursor is walked *back* (its only decrement) — whether control gets there by
+    # `goto rollback` or by falling out of `if (claimed)` blocks does not matter
+    cursors = {rl.var_of(f, f.nodes[e]["ptr"]) for e in cas} - {None}
+    decs = [a for d_ in cursors for a, kind, opnd in f.var_updates(d_) if kind == "sub" and opnd == 1]
+    ctx.check(R, len(cursors) == 1 and len(decs) == 1, f.where(), "one field cursor, walked back at exactly one place (the roll-back)", key="C14.R2:shape")
+    labels = decs[:1] if len(cursors) == 1 else []
     if labels:
         rb = cfg.pt(labels[0])
         claim_cas = [e for e in cas if not cfg.reaches(rb, cfg.pt(e))]
         undo_cas = [e for e in cas if cfg.reaches(rb, cfg.pt(e))]
         ctx.check(R, len(claim_cas) == 3 and len(undo_cas) == 1, f.where(), "three claiming CAS sites (initial, intermediate, final) and one undoing CAS", key="C14.R2:cas")
-        # after the first claim CAS succeeded, every path that returns false passes the rollback label
+        # after the first claim CAS succeeded, every path that returns false passes the walk-back
         first = min(claim_cas, key=lambda e: f.nodes[e]["ln"]) if claim_cas else None
         if first is not None:
             succ = [q for p, q, e, pol in rl.edges_with_fact(f, lambda e, pol: isinstance(e, int) and pol and first in set(f.walk(e)))]
@@ -92,8 +95,7 @@ def r2(ctx, prog):
             rets_false = [r for r in f.all(kind="ReturnStmt") if f.cv(f.nodes[r].get("val", -1)) == 0 and any(cfg.reaches(q, cfg.pt(r)) for q in succ)]
             w = None
             for r in rets_false:
-                lbl_blocks = {b["id"] for b in cfg.blocks.values() if b.get("label") == labels[0]}
-                w = w or cfg.must_pass(succ, [cfg.pt(r)], lambda e: False, edge_ok=lambda lab, p, q: q[0] not in lbl_blocks)
+                w = w or cfg.must_pass(succ, [cfg.pt(r)], lambda e: e == labels[0])
             ctx.check(R, bool(succ) and w is None, f.where(first), "after the initial field was claimed, `return false` is reached only through the roll-back", key="C14.R2:through", witness=w)
         # undo of the initial field is conditional on field == initial_field and clears exactly initial_mask; the two are
         # identified by role: the mask or-ed in by the first claim, and the pointer the field cursor is set to before it
